@@ -78,7 +78,7 @@ TEXT["C04"] = {
              "ERR iff any is stopped/stalled/rewound (status_*_iff); total lag is the uint64 sum (totalLag_sum/_exact); max-lag is a listed partition with maximal lag, absent iff no partitions; "
              "count = number of partitions; completeness = (#partitions whose window is full)/count with 'full' tied to the C02 window shape (complete_fraction, partition_complete_iff_full); the "
              "problems-only view is the filter of the full view with equal summary fields (filter_view); the evaluation never panics on C02-shaped windows (evaluateGroup_total). Tie: real storage + "
-             "real CachingEvaluator vs the compiled model on generated histories. A genuine defect (all-nil window counted as complete) was found this way and repaired (known_findings.json)."),
+             "real CachingEvaluator vs the compiled model on generated histories, every sixth of them a directed one (one group, several topics, each partition driven into a chosen state, status asked three times because Go walks the topics in map order). A genuine defect (all-nil window counted as complete) was found this way and repaired (known_findings.json)."),
     "note": ("Trusted: Lean kernel + 3 standard axioms; harness; float32 carried as exact pairs; max-lag ties compared by value. The tie is sampled."),
 }
 TEXT["C13"] = {
@@ -87,8 +87,8 @@ TEXT["C13"] = {
     "text": ("Proof: Props/C13.lean proves for every evaluation history of a group and every module configuration: from the first evaluation worse than OK up to and including the first OK again every "
              "notification carries the same non-empty id and start (incident_identity); different incidents have different ids given non-repeating UUIDs (incidents_distinct); at the closing evaluation "
              "each accepting send-close module gets exactly one notification, a close (exactly_one_close); a close is only ever sent after an open incident (no_close_without_incident); several "
-             "groups and clusters interleaved behave per group like that group's own history (run_projection). Tie: real checkAndSendResponseToModules/notifyModule vs the compiled model. The periodic refresh of the group records (real processClusterList/processConsumerList against a scripted storage, incl. a storage too busy to take the consumer-list requests before their one-second timeout) is part of the stream; refresh is modelled (Notifier.refresh) and stalled_refresh_keeps_every_record / stalled_refresh_keeps_incident prove that a refresh whose requests are given up changes no record of a listed cluster."),
-    "note": ("Trusted: Lean kernel + standard axioms; harness incl. its clock-freezing/time-shifting hook; UUID freshness assumed. Not modelled: group-list refresh mid-incident, concurrent responses for one group."),
+             "groups and clusters interleaved behave per group like that group's own history (run_projection). Tie: real checkAndSendResponseToModules/notifyModule vs the compiled model. The periodic refresh of the group records (real processClusterList/processConsumerList against a scripted storage, incl. a storage too busy to take the consumer-list requests before their one-second timeout) is part of the stream; refresh is modelled (Notifier.refresh) and stalled_refresh_keeps_every_record / stalled_refresh_keeps_incident prove that a refresh whose requests are given up changes no record of a listed cluster. The refresh is characterised from both sides (refresh_keeps_incident, refresh_picks_up_new_groups, refresh_drops_groups_that_left, refresh_drops_clusters_that_left) and run_projection_through_refreshes extends run_projection to histories in which refreshes come anywhere between the evaluation results of any groups: for a group that stays listed, every single-group theorem of C13/C14 holds across them."),
+    "note": ("Trusted: Lean kernel + standard axioms; harness incl. its clock-freezing/time-shifting hook; UUID freshness assumed. Not modelled: concurrent responses for one group (the real code serialises them per cluster lock)."),
 }
 TEXT["C14"] = {
     "design_ref": "DESIGN.md §4.14",
@@ -96,7 +96,7 @@ TEXT["C14"] = {
     "text": ("Proof: Props/C14.lean proves: an open notification goes only to an accepting module at or above its threshold; within an incident two open notifications to a module are more than its send "
              "interval apart; with send-once at most one per incident; and every incident is announced — at the first evaluation of an incident whose status reaches an accepting module's threshold that "
              "module is notified, for the first and every later incident (every_incident_announced). The last theorem was false of the unchanged code (LastNotify survived incidents): the check found "
-             "it, the defect was repaired in /repo (fix: commit), the model is of the repaired code. Tie: real notifier code vs the compiled model over all option combinations."),
+             "it, the defect was repaired in /repo (fix: commit), the model is of the repaired code. reminder_when_interval_elapsed: the interval limits but does not swallow — a module that is not send-once is notified again by the first evaluation of the incident that comes more than its interval after its last notification. Tie: real notifier code vs the compiled model over all option combinations."),
     "note": ("Trusted: Lean kernel + standard axioms; harness incl. time shifting (interval boundaries approached to 8 ms, never compared exactly). Reading: send-interval applies within an incident."),
 }
 
@@ -151,7 +151,7 @@ TEXT["C10"] = {
              "leave storage untouched, and after any history every group in any listing was created by an accepted commit or ownership update (storage_tracks_only_accepted); the offsets-topic "
              "reader forwards no offset, ownership, clear or delete request for a rejected group for any bytes (kafka_reader_forwards_only_accepted — false before the repair of the metadata path, "
              "found by the check); a notifier module is never notified, open or close, about a group its lists reject. Tie: storage, decode and notifier streams with list pairs; regexp matching is an oracle bit. "
-             "The Zookeeper reader's gate is not yet tied by a stream (see note). Zookeeper reader: zk_reader_forwards_only_accepted (for every tree, op — Start, any later change, the re-initialisation after a session expiry — and verdict function of the lists, nothing is forwarded for a rejected group) and zk_reader_forwards_accepted_commits, over Model/ZkReader.lean, tied by the zkreader stream."),
+             "The Zookeeper reader's gate is not yet tied by a stream (see note). Zookeeper reader: zk_reader_forwards_only_accepted (for every tree, op — Start, any later change, the re-initialisation after a session expiry — and verdict function of the lists, nothing is forwarded for a rejected group) and zk_reader_forwards_accepted_commits, over Model/ZkReader.lean, tied by the zkreader stream; zk_reader_rewalk_is_complete (after Start and after every session expiry each parsable commit of an accepted group in the tree is forwarded again)."),
     "note": ("Trusted: Lean kernel + standard axioms; harness; regexp engine as oracle. Partial: the Zookeeper reader path has a single accept gate (resetGroupListWatchAndAdd) that is read, not "
              "modelled; ZK watch dynamics are not modelled."),
 }
@@ -165,7 +165,7 @@ TEXT["C20"] = {
              "(shipped_templates_check, shipped_templates_render); the invariant (a listed partition is non-nil with non-nil Start/End) is proved of the evaluator model for every window, clock and "
              "threshold (problem_partition_has_ends, notifier_view_meets_invariant) and composed (every_status_renders); the data offers exactly Cluster, Group, ID, Start, Extras, Result and the "
              "nine documented helpers (data_offers_documented_fields, helpers_offered). JSON clause: proved — an abstract interpreter (Model/TmplFlow.lean: jsonOk) reads a template as JSON with typed holes, running a JSON pushdown recogniser (Model/Json.lean) over the text; flow_sound/json_sound (Proofs/TmplJson.lean) prove that whatever exec renders for an accepted template is accepted by the recogniser for EVERY value of the data type whose strings are JSON-safe and whose floats are finite, using stack-extension and safe-string lemmas about the automaton (Proofs/JsonPda.lean) and the decimal-digit lemmas of core Lean for printed integers; `decide` shows the four shipped HTTP/Slack templates are accepted (shipped_json_templates_flow), hence shipped_json_templates_wellformed and, composed with the evaluator, every_status_renders_json. The theorem's assumptions about Go's own renderers (EnvOk: time.Format output JSON-safe, %v of a finite float32 a JSON number, json.Marshal output a JSON text) are evaluated by the driver on every real rendering of the run (spec tag envok), and the recogniser itself is compared with json.Valid on every real rendering. Tie: real executeTemplate vs the compiled model on "
-             "shipped and generated templates, comparing error/no-error and the rendered bytes. A genuine defect (default-http-delete.tmpl used .Id) was found this way and repaired."),
+             "shipped and generated templates, comparing error/no-error and the rendered bytes. The partition helpers of the function map are modelled declaratively (Model/TmplHelpers.lean) with topicsbystatus_lists_the_topics_of_each_status (a topic is under a status name iff one of its listed partitions is in that status), topicsbystatus_has_no_repeats and partitioncounts_counts_each_problem_once; every case of the stream also runs both REAL helpers through a template on the case's partition list and compares the sorted result (hlp=). A genuine defect (default-http-delete.tmpl used .Id) was found this way and repaired."),
     "note": ("Trusted: Lean kernel + 3 standard axioms; the text/template model for the fragment in use (anything else is `unsup` and rejected by the checker); the fact generator (harness facts); "
              "Go's fmt/time/json renderings are parameters. Not modelled: templates with define/with/variables/parenthesised pipelines (rejected, reported as broken obligation if a shipped template "
              "starts using them). The tie is sampled."),
@@ -265,7 +265,7 @@ TEXT["C15"] = {
              "if it has changed); original_protocol_lost_the_wakeup proves, on the model of the ORIGINAL protocol, the defect that was found and repaired (an expiry broadcast between Lock() "
              "returning and Wait() was lost: the instance evaluated without the lock), early_expiry_is_seen that the same trace is now handled. Tie: real loops + real zookeeper coordinator vs "
              "the model's trace on scripted multi-cycle scenarios in real time, incl. the expiry delivered inside Lock(), flaps (expiry + reconnection before the manager runs) and irrelevant "
-             "session events; Lock() calls made while the session is known to be gone are counted (prelock)."),
+             "session events; Lock() calls made while the session is known to be gone are counted (prelock); scenarios in which nobody reads the evaluator channel for a while (stall=) check that a group is still requested at most once per started interval (burst)."),
     "note": ("Trusted: Lean kernel + 3 standard axioms; the atomic-step abstraction; real-time margins; the fake Zookeeper's semantics. Not modelled: preemption inside steps, the data race on the plain "
              "bool, the non-exclusive RLock around LastEval, Unlock failing after expiry (Burrow panics by design). The tie is sampled."),
 }
